@@ -1117,7 +1117,7 @@ def _loops_to_comprehensions(fn):
     return did
 
 
-def _reuse_param_names(fn):
+def _reuse_param_names(fn, only=None, keep=()):
     """``L = P`` in one arm and ``L = f(P)`` in the other (or the conditional-expression form), P a parameter that is
     never read or written afterwards and L bound nowhere else: L *is* the converted parameter - the view calls it P
     again (``if not isinstance(other, Poly): other = Poly(other)``)"""
@@ -1145,7 +1145,7 @@ def _reuse_param_names(fn):
             cands = [a.id for a in st.value.args if isinstance(a, ast.Name) and a.id in params and a.id != "self"]
             if len(cands) == 1:
                 L, P = st.targets[0].id, cands[0]
-        if L is None or P is None or L in params or L == P:
+        if L is None or P is None or L in params or L == P or (only is not None and P not in only) or L in keep:
             continue
         def mentions(node_):
             return any(isinstance(n, ast.Name) and n.id == L for n in ast.walk(node_))
@@ -1221,7 +1221,10 @@ def simplify_views(tree, ref_tree):
         for _ in range(4):
             c1 = _propagate_pure(node, only_flags=True)
             c2 = _inline_accessors(node)
-            c3 = _inline_read_aliases(node) or _reuse_param_names(node) or _product_loops_in_view(node)
+            # (only parameters the confirmed function re-binds itself: the point is to speak its language)
+            rebound = {n_.id for n_ in ast.walk(r) if isinstance(n_, ast.Name) and isinstance(n_.ctx, ast.Store)} & set(_scope_params(r))
+            ref_names = {n_.id for n_ in ast.walk(r) if isinstance(n_, ast.Name) and isinstance(n_.ctx, ast.Store)}
+            c3 = _inline_read_aliases(node) or _reuse_param_names(node, rebound, ref_names) or _product_loops_in_view(node)
             # a list built by an append loop where the confirmed function builds its lists by comprehensions only
             c4 = (not _append_loops(r)) and any(isinstance(n, ast.ListComp) for n in ast.walk(r)) and _loops_to_comprehensions(node)
             if not (c1 or c2 or c3 or c4):
